@@ -21,6 +21,7 @@ def dump(repo, header):
     key = (repo, header)
     if key in _cache:
         return _cache[key]
+    os.makedirs(os.path.join(VERIF, "cxxstubs", "a", "b"), exist_ok=True)  # git does not keep an empty directory
     path = os.path.join(repo, BIN, header)
     cmd = ["clang++", "-std=c++17", "-fsyntax-only", "-x", "c++-header", "-Wno-everything",
            "-I", os.path.join(VERIF, "cxxstubs", "a", "b"),  # so that "../../yardl.h" resolves to cxxstubs/yardl.h
@@ -2303,6 +2304,7 @@ def dump_ndjson(repo, header):
         _cache[key] = (None, 0, "nlohmann/json.hpp not installed")
         return _cache[key]
     path = os.path.join(repo, INC, "detail", "ndjson", header)
+    os.makedirs(os.path.join(VERIF, "cxxstubs", "a", "b"), exist_ok=True)
     cmd = ["clang++", "-std=c++17", "-fsyntax-only", "-x", "c++-header", "-Wno-everything",
            "-I", os.path.join(VERIF, "cxxstubs", "a", "b"), "-I", os.path.join(VERIF, "cxxstubs"), "-I", inc,
            "-Xclang", "-ast-dump=json", "-Xclang", "-ast-dump-filter=yardl::ndjson", path]
